@@ -66,6 +66,10 @@ func DrawProfile(r *rand.Rand) Profile {
 		p.MaxStmts = 6 + r.IntN(10)
 	case 3:
 		p.Wide = true
+	case 4:
+		// dozens of accounts: one balance query then carries far more pairs than usual
+		p.NAccounts = 20 + r.IntN(30)
+		p.MaxStmts = 10 + r.IntN(30)
 	}
 	return p
 }
@@ -401,9 +405,17 @@ func (g *G) varPortionText(p part) string {
 func (g *G) allotments(k int) []Allot {
 	parts := g.partition(k)
 	out := make([]Allot, k)
+	// `remaining` usually closes the list; the interpreter accepts it anywhere
+	remAt := -1
+	if g.chance(0.5) {
+		remAt = k - 1
+		if g.chance(0.25) {
+			remAt = g.R.IntN(k)
+		}
+	}
 	for i, p := range parts {
 		switch {
-		case i == k-1 && g.chance(0.5):
+		case i == remAt:
 			out[i] = Allot{K: "rem"}
 		case g.chance(g.P.PVarUse*0.5) && len(g.Prog.Stmts) >= 0 && g.canDeclare():
 			name := g.declare("portion", g.varPortionText(p), "", nil)
@@ -484,7 +496,7 @@ func (g *G) source(asset string, depth int, sendAll bool, ample bool) Src {
 		// inside a cap the default (bounded) evaluation applies even in send-all
 		return Src{K: "cap", E: g.capExpr(asset), Subs: []Src{g.source(asset, depth-1, false, false)}}
 	case 3:
-		k := []int{1, 2, 2, 3, 3, 4, 5}[g.R.IntN(7)]
+		k := []int{1, 2, 2, 3, 3, 3, 4, 5, 6, 9 + g.R.IntN(10)}[g.R.IntN(10)]
 		al := g.allotments(k)
 		s := Src{K: "allot"}
 		for i := 0; i < k; i++ {
@@ -551,7 +563,7 @@ func (g *G) destination(asset string, depth int) Dst {
 		d.Rem = &rem
 		return d
 	case 2:
-		k := []int{1, 2, 2, 3, 3, 4, 5}[g.R.IntN(7)]
+		k := []int{1, 2, 2, 3, 3, 3, 4, 5, 6, 9 + g.R.IntN(10)}[g.R.IntN(10)]
 		al := g.allotments(k)
 		d := Dst{K: "allot"}
 		for i := 0; i < k; i++ {
@@ -801,13 +813,18 @@ func Generate(r *rand.Rand, p Profile) *G {
 	g := &G{R: r, P: p}
 	g.In = Inputs{Vars: map[string]string{}, Balances: map[string]map[string]string{}, Meta: map[string]map[string]string{}}
 	n := p.NAccounts
+	extra := 0
 	if n > len(AccountPool) {
+		extra = n - len(AccountPool)
 		n = len(AccountPool)
 	}
 	if n < 1 {
 		n = 1
 	}
 	g.Accts = append([]string(nil), AccountPool[:n]...)
+	for i := 0; i < extra; i++ {
+		g.Accts = append(g.Accts, fmt.Sprintf("users:%03d", 100+i))
+	}
 	if n < len(AccountPool) && g.chance(0.25) {
 		// swap in names from the tail of the pool (long names, names that are prefixes of each other)
 		g.Accts[g.R.IntN(n)] = AccountPool[len(AccountPool)-1-g.R.IntN(2)]
